@@ -246,7 +246,7 @@ pub fn run(cfg: &Cfg, rep: &mut Report) {
         }
     });
     // ---- mutants
-    let n = if miri { 160 } else { cfg.n(150_000, 2_000_000) };
+    let n = if miri { 160 } else { cfg.n(150_000, 16_000_000) };
     run_stage(cfg, rep, "mutants", n, |idx, rng, r| {
         let must = if rng.chance(1, 2) { vec![rng.below(d.insts.len())] } else { vec![] };
         let small = rng.chance(2, 3) || miri;
@@ -262,7 +262,7 @@ pub fn run(cfg: &Cfg, rep: &mut Report) {
         }
     });
     // ---- noise
-    let n = if miri { 48 } else { cfg.n(60_000, 1_000_000) };
+    let n = if miri { 48 } else { cfg.n(60_000, 8_000_000) };
     run_stage(cfg, rep, "noise", n, |idx, rng, r| {
         let len = if idx < 64 { idx as usize } else if rng.chance(1, 8) { rng.below(4097) } else { rng.below(200) };
         let mut b: Vec<u8> = (0..len).map(|_| rng.u32() as u8).collect();
@@ -311,7 +311,7 @@ pub fn run(cfg: &Cfg, rep: &mut Report) {
         });
     }
     // ---- decoder request scripts with extreme limits: only panics count here (values are C11's)
-    let n = if miri { 60 } else { cfg.n(80_000, 1_000_000) };
+    let n = if miri { 60 } else { cfg.n(80_000, 8_000_000) };
     run_stage(cfg, rep, "decoder-scripts", n, |idx, rng, r| {
         let len = rng.below(if miri { 40 } else { 300 });
         let b: Vec<u8> = (0..len).map(|_| if rng.chance(1, 4) { 0 } else { rng.u32() as u8 }).collect();
